@@ -1149,6 +1149,13 @@ NUM_CORPUS = [
     {"ast": ["bin", "add", ["lit", "10 m"], ["lit", "1 J"]], "out": "m"},
     {"ast": ["fn1", "sin", ["fn1", "sin", ["lit", "1"]]], "out": None},
     {"ast": ["fn2", "powb", ["fn2", "powb", ["lit", "2"], ["lit", "2"]], ["par", ["lit", "2"]]], "out": None},
+    # pow() with a zero / negative / computed whole exponent (always run: C18-19 was only met by chance)
+    {"ast": ["fn2", "powb", ["lit", "2"], ["lit", "-2"]], "out": None},
+    {"ast": ["fn2", "powb", ["lit", "5"], ["lit", "0"]], "out": None},
+    {"ast": ["fn2", "powb", ["lit", "4"], ["par", ["bin", "sub", ["lit", "1"], ["lit", "2"]]]], "out": None},
+    {"ast": ["bin", "mul", ["lit", "6 m2"], ["fn2", "powb", ["lit", "2 m"], ["par", ["bin", "sub", ["lit", "1"], ["lit", "3"]]]]], "out": None},
+    {"ast": ["bin", "pow", ["lit", "4"], ["lit", "-1"]], "out": None},
+    {"ast": ["bin", "pow", ["lit", "4 m"], ["lit", "0"]], "out": None},
     {"ast": ["bin", "mul", ["lit", "3 m"], ["fn1", "log10", ["bin", "truediv", ["lit", "10 m"], ["par", ["bin", "sub", ["lit", "7 cm"], ["lit", "20 mm"]]]]]], "out": "m"},
 ]
 LOG_CORPUS = [
